@@ -41,12 +41,15 @@ func runRelIndex(c *core.Ctx) []core.Obligation {
 		if fn.Blocks == nil || fn.Synthetic != "" {
 			continue
 		}
-		if !(strings.HasPrefix(name, "json.(decoder).parse") || strings.HasPrefix(name, "json.skipSpaces")) {
+		// appendCompact scans text that was not necessarily validated (TrustRawMessage hands it a
+		// RawMessage as it is): its look-ahead is held to the same standard as the scanners'
+		compact := strings.HasPrefix(name, "json.appendCompact")
+		if !(strings.HasPrefix(name, "json.(decoder).parse") || strings.HasPrefix(name, "json.skipSpaces") || compact) {
 			continue
 		}
 		var in *ssa.Parameter
 		for _, p := range fn.Params {
-			if p.Type().String() == "[]byte" && in == nil {
+			if p.Type().String() == "[]byte" && in == nil && !(compact && p.Name() != "src") {
 				in = p
 			}
 		}
@@ -130,6 +133,29 @@ func boundedBelowLen(idx ssa.Value, in ssa.Value, blk *ssa.BasicBlock, depth int
 		case bo.X == idx && isLen(bo.Y) && ((bo.Op == token.NEQ && cnd.succ == 0) || (bo.Op == token.EQL && cnd.succ == 1)):
 			// i != len(b) with i <= len(b) maintained by the loop: accepted as the scanners write it
 			return true
+		}
+		// (base + k) < len(b) implies (base + j) < len(b) for 0 <= j <= k: the look-ahead of a
+		// scanner tests the farthest byte once and reads the nearer ones (go/ssa does not share the
+		// two additions)
+		{
+			split := func(v ssa.Value) (ssa.Value, int64) {
+				if add, ok := v.(*ssa.BinOp); ok && add.Op == token.ADD {
+					if k, isK := constInt(add.Y); isK && k >= 0 {
+						return add.X, k
+					}
+				}
+				return v, 0
+			}
+			ib, ij := split(idx)
+			cb, ck := split(bo.X)
+			if ib == cb && isLen(bo.Y) && ij >= 0 {
+				if ((bo.Op == token.LSS && cnd.succ == 0) || (bo.Op == token.GEQ && cnd.succ == 1)) && ck >= ij {
+					return true
+				}
+				if ((bo.Op == token.LEQ && cnd.succ == 0) || (bo.Op == token.GTR && cnd.succ == 1)) && ck > ij {
+					return true
+				}
+			}
 		}
 		// (idx + k) < len(b) implies idx < len(b)
 		if add, isAdd := bo.X.(*ssa.BinOp); isAdd && add.Op == token.ADD && add.X == idx && isLen(bo.Y) {
